@@ -37,13 +37,27 @@ pub fn panic_site(desc: &str) -> String {
             return rest[q + 1..].to_string();
         }
     }
-    s.strip_prefix("/repo/").map(|x| x.to_string()).unwrap_or(s)
+    if let Some(p) = s.find("/repo/src/") {
+        return s[p + "/repo/".len()..].to_string();
+    }
+    if s.starts_with("/rustc/")
+        && let Some(p) = s.find("/library/")
+    {
+        return s[p + 1..].to_string();
+    }
+    s
 }
 
 /// Progress line on stderr (and a note in the evidence).
 fn progress(run: &Run, what: &str) {
-    eprintln!("c01: [{:7.1}s] {what}", run.elapsed_s());
-    run.note(format!("{what} at {:.1}s", run.elapsed_s()));
+    let cpu = |who| {
+        let mut ru: libc::rusage = unsafe { std::mem::zeroed() };
+        unsafe { libc::getrusage(who, &mut ru) };
+        ru.ru_utime.tv_sec as f64 + ru.ru_stime.tv_sec as f64 + (ru.ru_utime.tv_usec + ru.ru_stime.tv_usec) as f64 / 1e6
+    };
+    let (own, kids) = (cpu(libc::RUSAGE_SELF), cpu(libc::RUSAGE_CHILDREN));
+    eprintln!("c01: [{:7.1}s wall, {own:7.0}s cpu + {kids:5.0}s in children] {what}", run.elapsed_s());
+    run.note(format!("{what} at {:.1}s wall, {own:.0}s process CPU + {kids:.0}s CPU in waited-for children", run.elapsed_s()));
 }
 
 /// `C01_PARTS=1,3` restricts a run to some parts (debugging aid; the evidence then says so).
@@ -104,7 +118,7 @@ fn rebuild_input(v: &Value) -> Option<Vec<u8>> {
 fn case_json(mode: &str, profile: &str, t: &str, entry: Entry, opt: usize, input: &[u8], recipe: Option<&Patho>, origin: &str) -> Value {
     json!({
         "mode": mode, "profile": profile, "target": t, "entry": entry.name(), "opt": opt,
-        "opt_desc": targets::OPTVEC_DESC[opt.min(targets::N_OPTVEC - 1)],
+        "opt_desc": targets::opt_desc(opt),
         "input": input_json(input, recipe), "origin": origin,
     })
 }
@@ -343,8 +357,10 @@ fn judge_child(
                 judge_spin(run, case(), m, t, entry, opt, input);
             }
         }
+        // dev profile: depth composed through aliases is still block nesting below / at max_depth, the
+        // class already established for that profile (frames of ~7-19 KiB per level)
         ChildClass::StackOverflow => report(run, 
-            &format!("C01:stack-overflow:{profile}:{family}"),
+            &format!("C01:stack-overflow:{profile}:{}", if profile == "dev" && family == "alias-nest" { "block-nest" } else { family }),
             case(),
             det("8 MiB main-thread stack exhausted with the budget of this option vector in force"),
         ),
@@ -384,7 +400,7 @@ fn patho_list(tier: Tier) -> Vec<Patho> {
         let params: Vec<usize> = match (shape, tier) {
             ("alias-chain", Tier::Quick) => vec![1, 15],
             ("alias-chain", Tier::Thorough) => vec![1, 2, 4, 8, 15],
-            (_, Tier::Quick) => vec![1990, 2000, 2001, 2002, 2010, 3001, 3900],
+            (_, Tier::Quick) => vec![2000, 2001, 2002, 3001],
             (_, Tier::Thorough) => (1996..=2004).chain([1990, 2010, 2500, 3001, 3900]).collect(),
         };
         for d in params {
@@ -688,6 +704,59 @@ fn bisect_overflow(run: &Run, exe: &Path, profile: &str) {
     });
 }
 
+/// Evidence only: the smallest main-thread stack (bisected to 32 KiB) with which a child returns
+/// on 2000 nested block collections, per shape and target, and the margin that leaves at 8 MiB.
+fn measure_stack_need(run: &Run, exe: &Path, profile: &str) {
+    let combos: Vec<(&str, &str)> = vec![
+        ("map-lines", "Ignored"),
+        ("map-lines", "Mixed"),
+        ("map-lines", "json"),
+        ("map-lines", "Val"),
+        ("map-lines", "DeepMap"),
+        ("seq-inline", "Ignored"),
+        ("seq-inline", "json"),
+        ("seq-inline", "Val"),
+        ("seq-inline", "DeepSeq"),
+        ("enum-payload", "EnumNest"),
+        ("alternating", "Val"),
+    ];
+    par_range_chunk(combos.len(), 1, |i| {
+        let (shape, t) = combos[i];
+        let doc = genr::block_nest(shape, 2000);
+        let returns = |stack: u64| -> Option<bool> {
+            child::STACK_OVERRIDE.with(|s| s.set(Some(stack)));
+            let r = child::run_case(exe, Entry::FromStr, t, 0, &doc, 300, 900);
+            child::STACK_OVERRIDE.with(|s| s.set(None));
+            match r {
+                Ok((_, ChildClass::Returned(_))) => Some(true),
+                Ok((_, ChildClass::StackOverflow)) | Ok((_, ChildClass::Signal(_))) => Some(false),
+                _ => None,
+            }
+        };
+        let (mut lo, mut hi) = (256u64 << 10, 64u64 << 20);
+        if returns(hi) != Some(true) {
+            run.observe(&format!("stack_needed_at_depth_2000/{profile}"), &format!("{shape}->{t}: more than 64 MiB"));
+            return;
+        }
+        while hi - lo > 32 << 10 {
+            let mid = (lo + hi) / 2;
+            match returns(mid) {
+                Some(true) => hi = mid,
+                Some(false) => lo = mid,
+                None => return,
+            }
+        }
+        let margin = 100.0 * (child::STACK_BYTES as f64 - hi as f64) / child::STACK_BYTES as f64;
+        run.observe(
+            &format!("stack_needed_at_depth_2000/{profile}"),
+            &format!("{shape}->{t}: {:.2} MiB ({:.2} KiB per level), margin at 8 MiB {margin:.0}%", hi as f64 / 1048576.0, hi as f64 / 2000.0 / 1024.0),
+        );
+        if profile == "release" && margin < 5.0 {
+            run.note(format!("WARNING (no verdict): release stack margin at depth 2000 for {shape}->{t} is only {margin:.1}%"));
+        }
+    });
+}
+
 // ------------------------------------------------------------------ replay
 
 /// Replay of the alias-nest depth oracle (the literal twin is run in-process on a large stack).
@@ -862,11 +931,11 @@ fn main() {
     directive_gate(run);
     let tier = run.tier;
     let all_targets = targets::all();
-    let cross: Vec<Tgt> = CROSS_TARGETS.iter().map(|n| targets::by_name(n).expect("cross target")).collect();
+    let cross: Vec<&'static Tgt> = CROSS_TARGETS.iter().map(|n| targets::by_name(n).expect("cross target")).collect();
     for e in Entry::ALL {
         run.observe("entry_points", e.name());
     }
-    for t in &all_targets {
+    for t in all_targets.iter() {
         run.observe("targets", t.name());
     }
     for (i, d) in targets::OPTVEC_DESC.iter().enumerate() {
@@ -879,19 +948,33 @@ fn main() {
     let exe = std::env::current_exe().expect("current_exe");
     if part_on(4) {
         run_probes(run, &exe, "release", &pathos, tier);
+        measure_stack_need(run, &exe, "release");
     }
     progress(run, "part 4 (release child probes) done");
 
-    // ---- 1. exhaustive token strings x entry points x option vectors 0..4 x the nine DESIGN targets
-    let max_len = tier.pick(3, 4);
-    let n_strings = genr::token_space(max_len);
+    // ---- 1. exhaustive token strings
+    //   full grid: every string of length <= 3 x 12 entry points x option vectors 0..7 x 11 targets;
+    //              thorough: also every string of length 4 x 12 entry points x option vectors 0..4 x 11 targets
+    //   thin grid: every string of the next length (4 quick / 5 thorough) x a few rotating
+    //              (target of all, entry point, option vector incl. bit-encoded ones) combinations
+    let n3 = genr::token_space(3);
+    let n4 = genr::token_space(4);
+    let n5 = genr::token_space(5);
+    let full_len = tier.pick(3, 4);
+    let n_strings = tier.pick(n3, n4);
     let nt_calls = AtomicU64::new(0);
-    let exhaustive_one = |input: &[u8], origin: &str, count_nt: bool| {
+    // n_opts == N_OPTVEC: the whole grid; n_opts == 4: the DESIGN grid (its four option vectors, its
+    // nine targets, its nine entry points)
+    let exhaustive_one = |input: &[u8], origin: &str, count_nt: bool, n_opts: usize| {
         let nt = count_nt && oracle::nontrivial_input(input);
         let mut calls = 0u64;
-        for t in &cross {
+        let whole = n_opts == targets::N_OPTVEC;
+        for t in &cross[..if whole { cross.len() } else { 9 }] {
             for e in Entry::ALL {
-                for opt in 0..4 {
+                if !whole && matches!(e, Entry::Defaults | Entry::FromSliceMultiple | Entry::ReadAbandon) {
+                    continue;
+                }
+                for opt in 0..n_opts {
                     let out = oracle::exercise(t, e, opt, input);
                     if out.applicable {
                         calls += 1;
@@ -906,28 +989,95 @@ fn main() {
             nt_calls.fetch_add(calls, Ordering::Relaxed);
         }
     };
-    exhaustive_one(b"", "empty", false);
-    let n_strings_run = if part_on(1) { n_strings.min(std::env::var("C01_LIMIT").ok().and_then(|v| v.parse().ok()).unwrap_or(usize::MAX)) } else { 0 };
+    // rotating thin grid: `k` combinations chosen by a hash of the input (deterministic, seed-independent)
+    let thin_one = |input: &[u8], origin: &str, k: usize, tag: &[u8]| {
+        let h0 = fnv_parts(&[tag, input]);
+        let mut calls = 0u64;
+        for j in 0..k {
+            let h = h0.wrapping_mul(0x9E3779B97F4A7C15).rotate_left(17 * (j as u32 + 1)) ^ (j as u64) * 0xD1342543DE82EF95;
+            let t = &all_targets[(h % all_targets.len() as u64) as usize];
+            let e = Entry::ALL[((h >> 16) % Entry::ALL.len() as u64) as usize];
+            let opt = if (h >> 60) & 3 == 0 {
+                targets::OPT_BITS_BASE + ((h >> 32) as usize & ((1 << targets::OPT_BITS) - 1))
+            } else {
+                ((h >> 24) % targets::N_OPTVEC as u64) as usize
+            };
+            let out = oracle::exercise(t, e, opt, input);
+            if out.applicable {
+                calls += 1;
+                judge(run, &out, t.name(), e, opt, input, None, origin);
+            }
+        }
+        run.evals(calls);
+        calls
+    };
+    exhaustive_one(b"", "empty", false, targets::N_OPTVEC);
+    let limit = std::env::var("C01_LIMIT").ok().and_then(|v| v.parse().ok()).unwrap_or(usize::MAX);
+    let n_strings_run = if part_on(1) { n_strings.min(limit) } else { 0 };
     par_range(n_strings_run, |i| {
         let s = genr::token_string(i);
-        exhaustive_one(s.as_bytes(), "token-exhaustive", true);
+        let n_opts = if i < n3 { targets::N_OPTVEC } else { 4 };
+        exhaustive_one(s.as_bytes(), "token-exhaustive", true, n_opts);
         if i % 7919 == 0 {
             run.sample(|| json!({"part": "token-exhaustive", "input": s}));
         }
     });
-    run.count("token_strings_exhaustive", n_strings as u64);
+    run.count("token_strings_exhaustive_full_grid", n_strings as u64);
+    // thin grid over the next length
+    let (thin_lo, thin_hi, thin_k) = tier.pick((n3, n4, 3usize), (n4, n5, 1usize));
+    let thin_n = if part_on(1) { (thin_hi - thin_lo).min(limit) } else { 0 };
+    let thin_calls = AtomicU64::new(0);
+    par_range(thin_n, |i| {
+        let s = genr::token_string(thin_lo + i);
+        let c = thin_one(s.as_bytes(), "token-exhaustive-thin", thin_k, b"thin");
+        thin_calls.fetch_add(c, Ordering::Relaxed);
+        if i % 65_521 == 0 && oracle::nontrivial_input(s.as_bytes()) {
+            run.nontrivial(fnv_parts(&[b"tok", s.as_bytes()]));
+        }
+    });
+    run.count("token_strings_exhaustive_thin_grid", (thin_hi - thin_lo) as u64);
+    run.count("token_strings_thin_grid_calls", thin_calls.load(Ordering::Relaxed));
     // sampled longer strings
-    let n_sampled = if part_on(1) { tier.pick(4_000, 60_000) } else { 0 };
+    let n_sampled = if part_on(1) { tier.pick(1_500, 10_000) } else { 0 };
     par_range(n_sampled, |i| {
         let mut rng = Rng::stream(run.seed, i as u64);
-        let len = if i % 4 == 3 { rng.range(6, 12) } else { 5 };
+        let len = rng.range(full_len + 2, 12);
         let s = genr::random_token_string(&mut rng, len);
-        exhaustive_one(s.as_bytes(), "token-sampled", true);
+        exhaustive_one(s.as_bytes(), "token-sampled", true, 4);
         if i % 1999 == 0 {
             run.sample(|| json!({"part": "token-sampled", "input": s}));
         }
     });
-    run.count("token_strings_sampled(len 5..12)", n_sampled as u64);
+    run.count("token_strings_sampled_longer", n_sampled as u64);
+
+    // ---- 1b. robotics expressions (feature-gated path): every token string over the expression
+    // alphabet, as a scalar in float contexts, with angle_conversions on
+    let rob_len = tier.pick(4, 5);
+    let rob_n = if part_on(1) { genr::robotics_space(rob_len).min(limit) } else { 0 };
+    let rob_opts = [4usize, targets::OPT_BITS_BASE + 0b0110_0000, targets::OPT_BITS_BASE + 0b0010_0100 + (1 << 8)];
+    par_range(rob_n, |i| {
+        let expr = genr::robotics_string(i);
+        let mut calls = 0u64;
+        for (cx, tn) in [("@", "f64"), ("@", "f32"), ("f: @", "Mixed"), ("- @", "VecF32"), ("@", "Val"), ("k3: @", "Exotic{int widths,char,unit,newtype,tuple struct,array,HashMap}")] {
+            let doc = format!("{}\n", cx.replace('@', &expr));
+            let t = targets::by_name(tn).expect("robotics target");
+            let opt = rob_opts[(i + calls as usize) % rob_opts.len()];
+            let e = if (i + calls as usize) % 3 == 0 { Entry::ReaderC7 } else { Entry::FromStr };
+            let out = oracle::exercise(t, e, opt, doc.as_bytes());
+            if out.applicable {
+                calls += 1;
+                judge(run, &out, t.name(), e, opt, doc.as_bytes(), None, "robotics-exhaustive");
+            }
+        }
+        run.evals(calls);
+        if i % 101 == 0 {
+            run.nontrivial(fnv_parts(&[b"rob", expr.as_bytes()]));
+        }
+        if i % 99_991 == 0 {
+            run.sample(|| json!({"part": "robotics-exhaustive", "expr": expr}));
+        }
+    });
+    run.count("robotics_expression_strings_exhaustive", genr::robotics_space(rob_len) as u64);
     progress(run, "part 1 done");
 
     // ---- 2. mutational corpus
@@ -939,6 +1089,7 @@ fn main() {
     }
     let mut corpus: Vec<Vec<u8>> = harvested;
     corpus.extend(genr::BUILTIN.iter().map(|s| s.as_bytes().to_vec()));
+    let n_harvested_builtin = corpus.len();
     let n_gen = tier.pick(1_500, 10_000);
     corpus.extend(genr::generated_docs(run.seed, n_gen));
     run.count("corpus/generated_docs", n_gen as u64);
@@ -979,6 +1130,7 @@ fn main() {
                 Ok(dev_exe) => {
                     run_probes(run, &dev_exe, "dev", &pathos, tier);
                     bisect_overflow(run, &dev_exe, "dev");
+                    measure_stack_need(run, &dev_exe, "dev");
                     progress(run, "dev child probes done");
                     san::run_sanitizers(run, &corpus, &dev_exe, &mut tools);
                     progress(run, "sanitizer shards done");
@@ -1013,7 +1165,7 @@ fn main() {
         }
     });
     // 2b. mutants
-    let n_mut = if part_on(2) { tier.pick(60_000, 1_500_000) } else { 0 };
+    let n_mut = if part_on(2) { tier.pick(60_000, 1_000_000) } else { 0 };
     let mut_kinds: Vec<AtomicU64> = (0..genr::MUTATIONS.len()).map(|_| AtomicU64::new(0)).collect();
     let invalid_utf8_inputs = AtomicU64::new(0);
     par_range(n_mut, |i| {
@@ -1040,7 +1192,7 @@ fn main() {
             }
             for _ in 0..2 {
                 let t = &all_targets[rng.below(all_targets.len())];
-                let opt = rng.below(targets::N_OPTVEC);
+                let opt = if rng.bool() { rng.below(targets::N_OPTVEC) } else { targets::OPT_BITS_BASE + rng.below(1 << targets::OPT_BITS) };
                 let out = oracle::exercise(t, e, opt, &d);
                 if out.applicable {
                     calls += 1;
@@ -1057,6 +1209,56 @@ fn main() {
             run.sample(|| json!({"part": "mutant", "mutations": kinds, "input_preview": text_preview(&d), "valid_utf8": is_utf8}));
         }
     });
+    // 2d. structure-aware, exhaustive per document: for every harvested / built-in document up to
+    // `sa_len` bytes: truncation at every byte, deletion of every byte, and for every line its
+    // deletion, duplication and swap with the next line; each variant through rotating combinations
+    {
+        let sa_len = tier.pick(160, 400);
+        let sa_docs: Vec<&Vec<u8>> = corpus.iter().take(n_harvested_builtin).filter(|d| d.len() >= 2 && d.len() <= sa_len).collect();
+        let variants = AtomicU64::new(0);
+        let sa_calls = AtomicU64::new(0);
+        par_range(if part_on(2) { sa_docs.len() } else { 0 }, |i| {
+            let d = sa_docs[i];
+            let mut n_var = 0u64;
+            let mut calls = 0u64;
+            let mut go = |v: &[u8], what: &str| {
+                n_var += 1;
+                calls += thin_one(v, what, 3, b"sa");
+            };
+            for cut in 0..d.len() {
+                go(&d[..cut], "structure-aware: truncated");
+            }
+            for del in 0..d.len() {
+                let mut v = d.clone();
+                v.remove(del);
+                go(&v, "structure-aware: byte deleted");
+            }
+            let lines: Vec<&[u8]> = d.split_inclusive(|b| *b == b'\n').collect();
+            for li in 0..lines.len() {
+                let cat = |ls: &[&[u8]]| ls.concat();
+                let mut del = lines.clone();
+                del.remove(li);
+                go(&cat(&del), "structure-aware: line deleted");
+                let mut dup = lines.clone();
+                dup.insert(li, lines[li]);
+                go(&cat(&dup), "structure-aware: line duplicated");
+                if li + 1 < lines.len() {
+                    let mut sw = lines.clone();
+                    sw.swap(li, li + 1);
+                    go(&cat(&sw), "structure-aware: lines swapped");
+                }
+            }
+            variants.fetch_add(n_var, Ordering::Relaxed);
+            sa_calls.fetch_add(calls, Ordering::Relaxed);
+            if oracle::nontrivial_input(d) {
+                run.nontrivial(fnv_parts(&[b"sa", d]));
+                nt_calls.fetch_add(calls, Ordering::Relaxed);
+            }
+        });
+        run.count("structure_aware/documents", sa_docs.len() as u64);
+        run.count("structure_aware/variants", variants.load(Ordering::Relaxed));
+        run.count("structure_aware/calls", sa_calls.load(Ordering::Relaxed));
+    }
     // 2c. scalar spellings at the edges of the typed grammars, in typed contexts
     {
         let mut docs: Vec<String> = Vec::new();
@@ -1069,7 +1271,7 @@ fn main() {
         par_range(n_docs, |i| {
             let d = docs[i].as_bytes();
             let mut calls = 0;
-            for t in &all_targets {
+            for t in all_targets.iter() {
                 for opt in 0..targets::N_OPTVEC {
                     for e in [Entry::FromStr, Entry::ReaderC7] {
                         let out = oracle::exercise(t, e, opt, d);
@@ -1113,7 +1315,7 @@ fn main() {
                 }
                 continue;
             }
-            for t in &all_targets {
+            for t in all_targets.iter() {
                 let deep = DEEP_TARGETS.contains(&t.name());
                 // quick tier: the targets that stop at the first type mismatch see the nests only at the
                 // limit itself, and the large documents only through a representative subset
@@ -1128,8 +1330,10 @@ fn main() {
                         continue;
                     }
                 }
-                let entries: &[Entry] = if deep {
-                    &[Entry::FromStr, Entry::FromSlice, Entry::ReaderC7, Entry::FromMultiple, Entry::ReadIter, Entry::WithDeReader]
+                let entries: &[Entry] = if deep && tier == Tier::Quick && matches!(p.family, "wide" | "anchors" | "scalar") {
+                    &[Entry::FromStr, Entry::ReaderC7, Entry::ReadIter]
+                } else if deep {
+                    &[Entry::FromStr, Entry::FromSlice, Entry::ReaderC7, Entry::FromMultiple, Entry::FromSliceMultiple, Entry::ReadIter, Entry::ReadAbandon, Entry::WithDeReader]
                 } else {
                     &[Entry::FromStr, Entry::ReadIter]
                 };
@@ -1204,7 +1408,8 @@ fn main() {
     let ld = |a: &AtomicU64| a.load(Ordering::Relaxed);
     run.count("calls_in_process", ld(&STATS.calls));
     run.count("ok_values_returned", ld(&STATS.oks));
-    run.count("errors_rendered(each in 9 ways)", ld(&STATS.errors_rendered));
+    run.count("miette_reports_rendered(4 handlers each)", ld(&STATS.miette_reports));
+    run.count("errors_rendered(each in 11 ways)", ld(&STATS.errors_rendered));
     run.count("rendered_bytes", ld(&STATS.rendered_bytes));
     run.count("combinations_not_applicable(skipped)", ld(&STATS.not_applicable));
     run.count("nontrivial_calls(input non-trivial x every combination run on it)", ld(&nt_calls));
@@ -1233,16 +1438,39 @@ fn main() {
     }
 
     let scope = format!(
-        "all {n_strings} token strings of length 1..={max_len} over the 28-token alphabet (plus the empty input) x 9 entry points x option vectors 0..3 x 9 targets (combinations that do not exist — &str entry with a borrowing-only target etc. — skipped)"
+        "(1) FULL GRID: all {n3} token strings of length 1..=3 over the 28-token alphabet, plus the empty input, x 12 entry points \
+(from_str, from_slice, from_reader with 1- and 7-byte chunks, from_multiple, from_slice_multiple, read drained and polled twice after its end, \
+read dropped after the first item, with_deserializer_from_str/_slice/_reader, and the bundle of option-less wrappers [vector 0 only]) \
+x option vectors 0..6 x 11 targets (the nine of DESIGN + the garde *_valid and validator *_validate families); combinations that do not exist \
+(&str entry x borrowing-only target, closure helpers x validating families ...) skipped{}. \
+(2) THIN GRID: all {} token strings of length {} x {} combinations each, chosen by a hash of the string from all {} targets x 12 entry points x \
+(7 fixed + 2^17 bit-encoded option vectors). \
+(3) ROBOTICS: all {} token strings of length 1..={rob_len} over the 22-token expression alphabet, as a scalar in 6 float contexts/targets with angle_conversions on. \
+(4) STRUCTURE-AWARE: for every harvested or built-in corpus document of 2..={} bytes: truncation at every byte, deletion of every byte, and deletion / duplication / swap-with-next of every line, x 3 hashed combinations. \
+(5) edge-scalar grid: {} scalar spellings x {} typed contexts x all targets x 7 option vectors x 2 entry points. \
+(6) pathological sizes listed in the counters (block / flow / alias-composed nesting around and beyond max_depth, 250 000-node documents, 1024+-1 documents, 50 000+-1 anchors/aliases, 8 MiB scalars, robotics runs) in-process and in 8 MiB-stack child processes",
+        if tier == Tier::Thorough {
+            format!("; plus all {} strings of length 4 x the 9 DESIGN entry points x option vectors 0..3 x the nine DESIGN targets", n4 - n3)
+        } else {
+            String::new()
+        },
+        thin_hi - thin_lo,
+        tier.pick(4, 5),
+        thin_k,
+        all_targets.len(),
+        genr::robotics_space(rob_len),
+        tier.pick(160, 400),
+        genr::EDGE_SCALARS.len(),
+        genr::EDGE_CONTEXTS.len(),
     );
     let mut f = Finish::new(
-        "an input is non-trivial when the raw parser produced >= 1 content event or a scan error past offset 0 (checked with saphyr-parser directly); distinct_nontrivial counts distinct non-trivial inputs (each of which was run through its whole entry x option x target grid: see counter nontrivial_calls) plus distinct pathological (shape, size, target, entry, option) calls and child probes that returned",
+        "an input is non-trivial when the raw parser produced >= 1 content event or a scan error past offset 0 (checked with saphyr-parser directly); distinct_nontrivial counts distinct non-trivial inputs of the full grid, the corpus, the mutants, the structure-aware base documents and the edge grid (each run through its whole grid: counter nontrivial_calls), a 1/65521 sample of the thin-grid strings and 1/101 of the robotics strings (their totals are in the counters), plus distinct pathological (shape, size, target, entry, option) calls and child probes that returned. Every execution = one entry-point call under catch_unwind + every returned error rendered 11 ways (Display, Debug, render, 3 formatters, 2 option sets, without_snippet Display/Debug, source chain) and, for option vector 0 and every second bit-encoded one on UTF-8 input, converted with serde_saphyr::miette and rendered by the graphical (Debug + explicit 60-column), narratable and JSON handlers",
     )
     .exhaustive(scope)
-    .assume("'always terminates' is restated as bounded progress: <= 20 s CPU per call for inputs <= 64 KiB, measured with the thread CPU clock; a wall-clock watchdog firing is inconclusive")
+    .assume("'always terminates' is restated as bounded progress: <= 60 s CPU per call for inputs <= 64 KiB (about 20x the most expensive call of the workload on an idle machine: a 1 M-event alias replay into a garde-validated target with the budget off, 2.8 s), measured with the thread CPU clock; a wall-clock watchdog firing is inconclusive")
     .assume("stack verdicts: child process with RLIMIT_STACK = 8 MiB, call made on the main thread, classified by the runtime's 'has overflowed its stack' abort")
     .assume("a sanitizer that cannot be built or run here is counted as inconclusive, never as a violation")
-    .min_nontrivial(tier.pick(20_000, 400_000));
+    .min_nontrivial(tier.pick(20_000, 300_000));
     for t in fin_tools {
         f = f.tool(t);
     }
